@@ -1,6 +1,7 @@
 CONSTANTS
-  Workers <- MCNoWorkers
-  NTs <- MCNTs
+  Workers <- Workers_exc
+  NTs <- NTs_exc
+  ThreadNames <- Threads_exc
   WyFix = FALSE
   AllowSpurious = FALSE
 INIT Init_exc
